@@ -2,9 +2,14 @@
 UNITS = {
     "names": ["C16"],
     "wire_decode": ["C03", "C16"],
+    "wire_codec": ["C04"],
 }
 # property -> clauses of the statement that no contract decides (reported in the evidence)
 UNDECIDED_CLAUSES = {
+    "C03": ["stack bytes per frame (recursion depth is bounded by the termination measure: strictly decreasing 14-bit starts)",
+            "'accepts exactly the well-formed messages / reads like an independent decoder' for names: spec-decoder equivalence (stage 2)"],
+    "C04": ["whole-message decode(encode(m)) == m: needs a global invariant tying the pointer table to the byte image",
+            "re-encoding a decoded message decodes to it again"],
     "C16": ["text round trip from_dotted_string(to_dotted_string(n)) == n (str::split / String: outside the verifier's reach)",
             "Eq/Hash/Ord agreement of the derived impls (derived impls are structural: trusted)"],
 }
